@@ -1,11 +1,8 @@
 //! nvh — correspondence harness: runs the real nervusdb crates on line-protocol streams.
 //!   nvh gen <stream> <seed> <n> [tier]   print op lines (deterministic in seed)
 //!   nvh run <stream>                      read op lines on stdin, one canonical output line each
-<<<<<<< HEAD
-mod qeng;
-=======
 mod capi_session;
->>>>>>> w/capi
+mod qeng;
 mod rng;
 mod sched;
 mod streams;
